@@ -1489,5 +1489,34 @@ def vvreplay(obj):
             print("FAIL", f["prop"], f["what"], json.dumps(f["detail"])[:300])
         print("replay: %d failure(s)" % len(bad))
         return 1 if bad else 0
+    # a float input of the tess recorder (pipeline F): rebuild it, record it, validate the recorded run with VTessTrace
+    inp = case.get("input") if isinstance(case.get("input"), dict) else None
+    if inp and "anchor" in inp:
+        ensure_dirs()
+        inf = os.path.join(OUT, "replay_finput.ndjson")
+        with open(inf, "w") as f:
+            f.write(json.dumps(inp) + "\n")
+        binp = build_harness()
+        res_file = os.path.join(OUT, "replay_tess_result.json")
+        trace_file = os.path.join(OUT, "replay_tess_trace.ndjson")
+        run_harness(binp, ["tess", "--out", res_file, "--trace", trace_file, "--tier", obj.get("tier", "quick"), "--seed", str(obj.get("seed", 0)),
+                           "--inputs", inf])
+        res = json.load(open(res_file))
+        cfg = os.path.join(OUT, "tlc", "vtesstrace.cfg")
+        write_cfg(cfg, spec="TSpec", invariants=["Consumed"], postcondition="TraceAccepted")
+        r = run_tlc("trace/VTessTrace.tla", cfg, workers=1, dfs=True, env_extra={"VV_TRACE": trace_file}, tags=("VERDICT",), timeout=3000)
+        bad = 0
+        for p in res["panics"]:
+            print("PANIC", p["message"])
+            bad += 1
+        for f in res["failures"][:20]:
+            print("FAIL", f["prop"], f["what"], json.dumps(f["detail"])[:300])
+        bad += len(res["failures"])
+        for _, v in r.cases:
+            for x in v["failed"]:
+                print("TLC ", "line", v["line"], x)
+                bad += 1
+        print("replay: %d failure(s)" % bad)
+        return 1 if bad else 0
     print("replay: nothing executable recorded in this file")
     return 2
